@@ -38,10 +38,44 @@ Inductive carrier :=
   | CMountBlob | CPushManifest | CDeleteBlob | CDeleteManifest | CDeleteTag
   | CRepositories | CTags | CReferrers
   (* the same listings failing on a page after the first (the client's pager loop) *)
-  | CRepositoriesLater | CTagsLater.
+  | CRepositoriesLater | CTagsLater
+  (* ... and failing after the backend's iterator has yielded an item *)
+  | CRepositoriesMid | CTagsMid | CReferrersMid
+  (* GetBlobRange(0, -1), which the client turns into GetBlob, and GetBlobRange(1, -1) *)
+  | CGetBlobRangeAll | CGetBlobRangeOpen
+  (* PushBlobChunkedResume(-1) succeeds (upload-status GET), then Commit / Write fails *)
+  | CInfoCommit | CInfoPatchWrite
+  (* follow-up and preliminary requests that only some server configurations provoke:
+     - GetTag of a manifest above the client's in-memory threshold from servers that omit the
+       digest header: the GET succeeds, the client's follow-up HEAD (ResolveTag) fails;
+     - GetBlob / GetBlobRange from servers that redirect blob downloads: the handler's
+       preliminary ResolveBlob fails (below the outermost level that is a HEAD request);
+       the ...1 carriers are the same call through one hop only (no HEAD involved) *)
+  | CGetTagLookup | CGetBlobResolve | CGetBlobRangeResolve
+  | CGetBlobResolve1 | CGetBlobRangeResolve1.
 
+(* the server configuration of the chain (harness/cmd/c07/chain.go); the model does not depend
+   on it: that is the property's claim *)
+Inductive config := KDefault | KQuirks.
+
+(* every level is a HEAD request *)
 Definition carrier_head (c : carrier) : bool :=
   match c with CResolveBlob | CResolveManifest | CResolveTag => true | _ => false end.
+
+(* some levels are HEAD requests, the others carry a body *)
+Definition carrier_mixed (c : carrier) : bool :=
+  match c with CGetTagLookup | CGetBlobResolve | CGetBlobRangeResolve => true | _ => false end.
+
+Definition has_heads (c : carrier) : bool := carrier_head c || carrier_mixed c.
+
+(* is the request that carries the error at a level a HEAD?  first = the level next to the
+   backend, outer = the level the caller talks to *)
+Definition level_head (c : carrier) (first outer : bool) : bool :=
+  match c with
+  | CGetTagLookup => first
+  | CGetBlobResolve | CGetBlobRangeResolve => negb outer
+  | _ => carrier_head c
+  end.
 
 (* texts of the wrapping calls in ociserver/writer.go and ociclient/writer.go *)
 Definition t_copy_put : bytes := s "failed to copy data to *main.scriptWriter: ".
@@ -58,13 +92,13 @@ Definition swrap (c : carrier) (first : bool) : wrap :=
   if first then
     match c with
     | CPushBlobWrite | CCommitWrite => WW t_copy_put
-    | CPatchWrite => WW t_copy_patch
+    | CPatchWrite | CInfoPatchWrite => WW t_copy_patch
     | CPatchClose => WW t_close
     | _ => WNone
     end
   else
     match c with
-    | CPatchResume | CPatchWrite | CPatchClose => WW t_close
+    | CPatchResume | CPatchWrite | CPatchClose | CInfoPatchWrite => WW t_close
     | _ => WNone
     end.
 
@@ -74,7 +108,7 @@ Definition swrap (c : carrier) (first : bool) : wrap :=
 Definition cwrap (c : carrier) (outer : bool) : wrap :=
   match c with
   | CResumeInfo => WW t_recover
-  | CCommitResume | CCommitWrite | CCommitCommit => WW t_commit
+  | CCommitResume | CCommitWrite | CCommitCommit | CInfoCommit => WW t_commit
   | CPushBlobResume | CPushBlobWrite | CPushBlobCommit => if outer then WNone else WW t_commit
   | _ => WNone
   end.
@@ -83,8 +117,9 @@ Fixpoint path_from (c : carrier) (first : bool) (lens : list Z) : list hopspec :
   match lens with
   | [] => []
   | n :: r =>
-      {| h_head := carrier_head c; h_swrap := swrap c first;
-         h_cwrap := cwrap c (match r with [] => true | _ => false end); h_len := n |}
+      let outer := match r with [] => true | _ => false end in
+      {| h_head := level_head c first outer; h_swrap := swrap c first;
+         h_cwrap := cwrap c outer; h_len := n |}
       :: path_from c false r
   end.
 
@@ -95,7 +130,8 @@ Definition path (c : carrier) (lens : list Z) : list hopspec := path_from c true
 Definition opwrap (c : carrier) : bool :=
   match c with
   | CPushBlobResume | CPushBlobWrite | CPushBlobCommit | CResumeInfo
-  | CPatchResume | CPatchWrite | CPatchClose | CCommitResume | CCommitWrite | CCommitCommit => true
+  | CPatchResume | CPatchWrite | CPatchClose | CCommitResume | CCommitWrite | CCommitCommit
+  | CInfoCommit | CInfoPatchWrite => true
   | _ => false
   end.
 
@@ -111,6 +147,10 @@ Record view := {
   v_msg : option bytes;        (* errors.As *WireError: Message *)
   v_text : bytes               (* Error() *)
 }.
+
+(* compact form of v_is in the case files: bit i of the mask is the answer for the i-th value *)
+Definition isbits (m : N) : list bool :=
+  map (N.testbit m) [0; 1; 2; 3; 4; 5; 6; 7; 8; 9; 10; 11; 12; 13; 14]%N.
 
 Record callrec := {
   o_lens : list Z;             (* body length of the error response at each level *)
@@ -129,6 +169,7 @@ Inductive field := FStatus | FIs | FDetail | FMessage | FHead.
 
 Record case := {
   c_err : serr;
+  c_config : config;           (* the server options of the chain *)
   c_carrier : carrier;
   c_field : field;             (* the clause of the property this case is judged on *)
   c_v0 : view;                 (* the original error, observed directly *)
@@ -212,8 +253,13 @@ Definition model_agrees (c : case) : bool :=
                non-empty code is still the code);
      FDetail   the detail JSON (canonical form) is the original's;
      FMessage  the message the caller finds after k hops is the one found after one hop;
-     FHead     (boundary of the HEAD finding, not in the property text) with a HEAD carrier
-               errors.Is and the code are exactly those of the documented status fallback. *)
+     FHead     (boundary of the HEAD finding, not in the property text) a call whose path has
+               a HEAD request answers errors.Is exactly as the documented status fallback
+               does; the code is the fallback's (none, or UNKNOWN once a body-carrying hop
+               has followed, for a status without a fallback).
+   A carrier with HEAD requests at some levels only (carrier_mixed) is judged on FMessage from
+   the first call in which a body-carrying hop follows the HEAD hops: every such call finds
+   the same message. *)
 
 (* the status the distribution specification assigns to each code (written out again here,
    independently of the model's table) *)
@@ -263,9 +309,45 @@ Definition head_value (st : Z) : option bytes :=
 Definition head_is (st : Z) (t : std) : bool :=
   optb_eqb (head_value st) (Some (std_code t)) || (Z.eqb st 416 && std_eqb t SRangeInvalid).
 
-Definition head_ok_call (o : callrec) : bool :=
+(* which hops of a call through k levels are HEAD requests, level 1 first (carrier metadata) *)
+Fixpoint heads_from (c : carrier) (first : bool) (k : nat) : list bool :=
+  match k with
+  | O => []
+  | S k' => level_head c first (match k' with O => true | _ => false end) :: heads_from c false k'
+  end.
+
+Definition call_heads (c : carrier) (o : callrec) : list bool :=
+  heads_from c true (length (o_lens o)).
+
+(* the flags of the hops after the last HEAD hop (the whole list when there is none) *)
+Fixpoint after_last_true (l : list bool) : list bool :=
+  match l with
+  | [] => []
+  | b :: r => if existsb (fun x => x) r then after_last_true r else if b then r else b :: r
+  end.
+
+Definition has_head (c : carrier) (o : callrec) : bool := existsb (fun x => x) (call_heads c o).
+
+(* a HEAD hop is on the path and body-carrying hops follow it *)
+Definition body_after_head (c : carrier) (o : callrec) : bool :=
+  has_head c o && match after_last_true (call_heads c o) with [] => false | _ => true end.
+
+Definition head_ok_call (c : carrier) (o : callrec) : bool :=
   bool_list_eqb (v_is (o_view o)) (map (head_is (o_wstatus o)) all_std) &&
-  optb_eqb (v_code (o_view o)) (head_value (o_wstatus o)).
+  optb_eqb (v_code (o_view o))
+    (if body_after_head c o
+     then Some (match head_value (o_wstatus o) with Some cd => cd | None => s "UNKNOWN" end)
+     else head_value (o_wstatus o)).
+
+(* mixed carriers: the message of the first call in which a body hop follows the HEAD hops *)
+Definition is_body_after_head (c : carrier) (co : callobs) : bool :=
+  match co with OCall o => body_after_head c o | OBad _ => false end.
+
+Definition mixed_msg (c : case) : option (option bytes) :=
+  match find (is_body_after_head (c_carrier c)) (c_calls c) with
+  | Some (OCall o) => Some (v_msg (o_view o))
+  | _ => None
+  end.
 
 Definition field_ok_call (c : case) (o : callobs) : bool :=
   match o with
@@ -275,8 +357,12 @@ Definition field_ok_call (c : case) (o : callobs) : bool :=
       | FStatus => status_ok_call (c_v0 c) o
       | FIs => is_ok_call (c_v0 c) o
       | FDetail => detail_ok_call (c_v0 c) o
-      | FMessage => match first_msg c with Some m1 => message_ok_call m1 o | None => false end
-      | FHead => negb (carrier_head (c_carrier c)) || head_ok_call o
+      | FMessage =>
+          if carrier_mixed (c_carrier c)
+          then negb (body_after_head (c_carrier c) o) ||
+               match mixed_msg c with Some m => message_ok_call m o | None => false end
+          else match first_msg c with Some m1 => message_ok_call m1 o | None => false end
+      | FHead => negb (has_head (c_carrier c) o) || head_ok_call (c_carrier c) o
       end
   end.
 
@@ -313,13 +399,14 @@ Inductive finding :=
   | KUploadMessage.    (* upload carriers: handler / client text prefixes pile up per hop *)
 
 Definition finding_of (c : case) : finding :=
-  let head := carrier_head (c_carrier c) in
+  let head := has_heads (c_carrier c) in
   match c_field c with
-  | FStatus | FHead => KNone
+  | FStatus => KNone
+  | FHead => if carrier_mixed (c_carrier c) && oversize c then KOversize else KNone
   | FIs => if head then KHeadIdentity else if oversize c then KOversize
            else if ambig416 c then KIs416 else KNone
   | FDetail => if head then KHeadDetail else if oversize c then KOversize else KNone
-  | FMessage => if head then KNone else if oversize c then KOversize
+  | FMessage => if carrier_head (c_carrier c) then KNone else if oversize c then KOversize
                 else if opwrap (c_carrier c) then KUploadMessage else KNone
   end.
 
@@ -329,7 +416,7 @@ Definition known_case (c : case) : bool :=
 (* a case exercises its clause when the error crosses at least two hops and the clause has
    something to lose: a status that is not the default 500 (table row or own status), an
    errors.Is answer that is true, a detail, any message (every second hop has prefixes to
-   strip), a HEAD carrier *)
+   strip), a carrier with HEAD requests on its path *)
 Definition nontrivial (c : case) : bool :=
   Nat.leb 2 (length (c_calls c)) &&
   match c_field c with
@@ -337,7 +424,7 @@ Definition nontrivial (c : case) : bool :=
   | FIs => existsb (fun b => b) (v_is (c_v0 c))
   | FDetail => match v_detail (c_v0 c) with Some _ => true | None => false end
   | FMessage => true
-  | FHead => carrier_head (c_carrier c)
+  | FHead => has_heads (c_carrier c)
   end.
 
 Definition mismatches (cs : list case) : list (N * bool) :=
@@ -387,6 +474,18 @@ Proof. destruct C, f, o; cbn; intros H; try discriminate H; auto. Qed.
 Lemma head_none C f o : carrier_head C = true -> swrap C f = WNone /\ cwrap C o = WNone.
 Proof. destruct C, f, o; cbn; intros H; try discriminate H; auto. Qed.
 
+Lemma heads_none C f o : has_heads C = true -> swrap C f = WNone /\ cwrap C o = WNone.
+Proof. destruct C, f, o; cbn; intros H; try discriminate H; auto. Qed.
+
+Lemma level_head_all C f o : carrier_head C = true -> level_head C f o = true.
+Proof. destruct C; cbn; intros H; try discriminate H; reflexivity. Qed.
+
+Lemma level_head_none C f o : has_heads C = false -> level_head C f o = false.
+Proof. destruct C; cbn; intros H; try discriminate H; reflexivity. Qed.
+
+Lemma head_not_mixed C : carrier_head C = true -> carrier_mixed C = false.
+Proof. destruct C; cbn; intros H; try discriminate H; reflexivity. Qed.
+
 Lemma path_from_length C f lens : length (path_from C f lens) = length lens.
 Proof. revert f. induction lens as [|n r IH]; intros f; cbn; [reflexivity | now rewrite IH]. Qed.
 
@@ -400,23 +499,23 @@ Qed.
 Definition fits (lens : list Z) : bool := forallb (fun n => Z.leb n 8192) lens.
 
 Lemma path_from_body C f lens :
-  carrier_head C = false -> fits lens = true -> forallb bodyspec (path_from C f lens) = true.
+  has_heads C = false -> fits lens = true -> forallb bodyspec (path_from C f lens) = true.
 Proof.
   intros Hh. revert f. induction lens as [|n r IH]; intros f; cbn [path_from forallb fits]; [reflexivity|].
   intros H. apply andb_true_iff in H as [H1 H2]. rewrite (IH _ H2), andb_true_r.
   unfold bodyspec. cbn [h_head h_len h_swrap h_cwrap].
-  rewrite Hh, swrap_nowv, cwrap_nowv. cbn. unfold error_body_size_limit. now rewrite H1.
+  rewrite (level_head_none C _ _ Hh), swrap_nowv, cwrap_nowv. cbn. unfold error_body_size_limit. now rewrite H1.
 Qed.
 
 Lemma path_from_plain C f lens :
-  carrier_head C = false -> opwrap C = false -> fits lens = true ->
+  has_heads C = false -> opwrap C = false -> fits lens = true ->
   forallb plainspec (path_from C f lens) = true.
 Proof.
   intros Hh Ho. revert f. induction lens as [|n r IH]; intros f; cbn [path_from forallb fits]; [reflexivity|].
   intros H. apply andb_true_iff in H as [H1 H2]. rewrite (IH _ H2), andb_true_r.
   unfold plainspec. cbn [h_head h_len h_swrap h_cwrap].
   destruct (opwrap_none C f (match r with [] => true | _ => false end) Ho) as [-> ->].
-  rewrite Hh. cbn. unfold error_body_size_limit. now rewrite H1.
+  rewrite (level_head_none C _ _ Hh). cbn. unfold error_body_size_limit. now rewrite H1.
 Qed.
 
 Lemma path_from_head C f lens :
@@ -425,7 +524,152 @@ Proof.
   intros Hh. revert f. induction lens as [|n r IH]; intros f; cbn [path_from forallb]; [reflexivity|].
   rewrite IH, andb_true_r. unfold headspec. cbn [h_head h_swrap h_cwrap].
   destruct (head_none C f (match r with [] => true | _ => false end) Hh) as [-> ->].
-  now rewrite Hh.
+  now rewrite (level_head_all C _ _ Hh).
+Qed.
+
+(* ---------------------------------------------------------------- paths with HEAD and body hops *)
+
+(* a hop that is a HEAD request or carries a body that fits, and adds no text *)
+Definition hpspec (hs : hopspec) : bool := headspec hs || plainspec hs.
+
+(* the hops after the last HEAD hop (the whole path when there is none) *)
+Fixpoint after_head (p : list hopspec) : list hopspec :=
+  match p with
+  | [] => []
+  | hs :: l => if existsb h_head l then after_head l else if h_head hs then l else hs :: l
+  end.
+
+Lemma hpspec_nowv hs : hpspec hs = true -> nowvspec hs = true.
+Proof.
+  unfold hpspec. intros H. apply orb_true_iff in H as [H|H].
+  - now apply headspec_nowv.
+  - now apply bodyspec_nowv, plainspec_body.
+Qed.
+
+Lemma hpspec_head hs : hpspec hs = true -> h_head hs = true -> headspec hs = true.
+Proof.
+  unfold hpspec, plainspec. intros H Hh. rewrite Hh in H. cbn [negb andb] in H.
+  now rewrite orb_false_r in H.
+Qed.
+
+Lemma hpspec_body hs : hpspec hs = true -> h_head hs = false -> plainspec hs = true.
+Proof. unfold hpspec, headspec. intros H Hh. rewrite Hh in H. exact H. Qed.
+
+Lemma nohead_plain l :
+  forallb hpspec l = true -> existsb h_head l = false -> forallb plainspec l = true.
+Proof.
+  induction l as [|hs l IH]; cbn [forallb existsb]; [reflexivity|]. intros H E.
+  apply andb_true_iff in H as [H1 H2]. apply orb_false_iff in E as [E1 E2].
+  rewrite (hpspec_body hs H1 E1). now apply IH.
+Qed.
+
+Lemma after_head_plain p : forallb hpspec p = true -> forallb plainspec (after_head p) = true.
+Proof.
+  induction p as [|hs l IH]; cbn [after_head forallb]; [reflexivity|]. intros H.
+  apply andb_true_iff in H as [H1 H2].
+  destruct (existsb h_head l) eqn:El; [now apply IH|].
+  destruct (h_head hs) eqn:Eh; [now apply nohead_plain|].
+  cbn [forallb]. rewrite (hpspec_body hs H1 Eh). now apply nohead_plain.
+Qed.
+
+Section MixedPaths.
+  Variable sprefix : Z -> bytes.
+  Variable cprefix : bytes -> bytes.
+
+  Lemma head_result_hop hs e :
+    nowvspec hs = true -> head_result (hop sprefix cprefix hs e) = head_result e.
+  Proof. intros H. unfold head_result. now rewrite (status_preserved_hop sprefix cprefix) by assumption. Qed.
+
+  (* once an error has crossed a HEAD hop, what arrives is what the status fallback gives,
+     carried through the hops that follow the last HEAD hop *)
+  Lemma hops_after_head p e :
+    forallb hpspec p = true -> existsb h_head p = true ->
+    hops sprefix cprefix p e = hops sprefix cprefix (after_head p) (head_result e).
+  Proof.
+    revert e. induction p as [|hs l IH]; intros e H E; [discriminate E|].
+    cbn [forallb existsb] in H, E. apply andb_true_iff in H as [H1 H2].
+    cbn [after_head hops]. destruct (existsb h_head l) eqn:El.
+    - rewrite IH by auto. now rewrite head_result_hop by now apply hpspec_nowv.
+    - rewrite orb_false_r in E. rewrite E.
+      now rewrite (hop_headspec sprefix cprefix) by now apply hpspec_head.
+  Qed.
+End MixedPaths.
+
+Lemma head_result_single e : single (head_result e) = true.
+Proof. unfold head_result. destruct (head_map (marshal_status e)) as [t|]; reflexivity. Qed.
+
+Lemma head_result_range_clean e : range_clean (head_result e) = true.
+Proof.
+  unfold range_clean. rewrite (is_head_result sp cp), (head_result_status sp cp).
+  unfold is_head, is_range, head_result, marshal_code.
+  destruct (head_map (marshal_status e)) as [u|]; cbn [option_map as_err std_err std_werr w_code].
+  - destruct (std_code u) eqn:Eu; [now apply std_code_not_empty in Eu|]. rewrite <- Eu.
+    rewrite std_code_beqb.
+    destruct (std_eqb SRangeInvalid u), (Z.eqb (marshal_status e) 416); reflexivity.
+  - destruct (Z.eqb (marshal_status e) 416); reflexivity.
+Qed.
+
+(* the statement of Props C07_head_then_body *)
+Lemma head_then_body : forall sprefix cprefix p e,
+  forallb hpspec p = true -> existsb h_head p = true ->
+  hops sprefix cprefix p e = hops sprefix cprefix (after_head p) (head_result e) /\
+  forallb plainspec (after_head p) = true /\
+  marshal_status (hops sprefix cprefix p e) = marshal_status e /\
+  forall t, is (hops sprefix cprefix p e) t = is_head (marshal_status e) t.
+Proof.
+  intros sp' cp' p e Hp Hh.
+  pose proof (hops_after_head sp' cp' p e Hp Hh) as E.
+  pose proof (after_head_plain p Hp) as Hpl.
+  split; [exact E|]. split; [exact Hpl|]. split.
+  - apply status_preserved. clear -Hp. induction p as [|hs l IH]; [reflexivity|].
+    cbn [forallb] in *. apply andb_true_iff in Hp as [H1 H2].
+    now rewrite (hpspec_nowv hs H1), IH.
+  - intros t. rewrite E. destruct (after_head p) as [|b bs].
+    + cbn [hops]. exact (is_head_result sp' cp' e t).
+    + rewrite is_preserved_hops.
+      * exact (is_head_result sp' cp' e t).
+      * now apply forallb_plain_body.
+      * apply head_result_single.
+      * intros _. apply head_result_range_clean.
+Qed.
+
+Lemma path_from_hp C f lens :
+  has_heads C = true -> carrier_head C = true \/ fits lens = true ->
+  forallb hpspec (path_from C f lens) = true.
+Proof.
+  intros Hh. revert f. induction lens as [|n r IH]; intros f Hd; cbn [path_from forallb]; [reflexivity|].
+  rewrite IH, andb_true_r.
+  2:{ destruct Hd as [Hd|Hd]; [now left|right]. cbn [fits forallb] in Hd. now apply andb_true_iff in Hd as [_ Hd]. }
+  unfold hpspec, headspec, plainspec. cbn [h_head h_len h_swrap h_cwrap].
+  destruct (heads_none C f (match r with [] => true | _ => false end) Hh) as [-> ->].
+  destruct (level_head C f _) eqn:El; [reflexivity|]. cbn.
+  destruct Hd as [Hd|Hd]; [now rewrite (level_head_all C _ _ Hd) in El|].
+  cbn [fits forallb] in Hd. apply andb_true_iff in Hd as [Hd _].
+  unfold error_body_size_limit. now rewrite Hd.
+Qed.
+
+(* the spec's HEAD flags are those of the path *)
+Lemma path_heads C f lens : map h_head (path_from C f lens) = heads_from C f (length lens).
+Proof.
+  revert f. induction lens as [|n r IH]; intros f; cbn [path_from map heads_from length]; [reflexivity|].
+  rewrite IH. cbn [h_head]. f_equal. destruct r; reflexivity.
+Qed.
+
+Lemma existsb_id_map (l : list hopspec) : existsb (fun x => x) (map h_head l) = existsb h_head l.
+Proof. induction l; cbn; congruence. Qed.
+
+Lemma after_head_flags p : map h_head (after_head p) = after_last_true (map h_head p).
+Proof.
+  induction p as [|hs l IH]; cbn [after_head after_last_true map]; [reflexivity|].
+  rewrite existsb_id_map. destruct (existsb h_head l); [exact IH|].
+  destruct (h_head hs) eqn:Eh; cbn [map]; rewrite ?Eh; reflexivity.
+Qed.
+
+Lemma heads_from_none C :
+  has_heads C = false -> forall f k, existsb (fun x => x) (heads_from C f k) = false.
+Proof.
+  intros H f k. revert f. induction k as [|k IH]; intros f; cbn [heads_from existsb]; [reflexivity|].
+  now rewrite (level_head_none C _ _ H), IH.
 Qed.
 
 (* ---------------------------------------------------------------- the outermost response *)
@@ -597,7 +841,7 @@ Section Call.
 
   (* body carriers whose responses fit *)
   Section Body.
-    Hypothesis Hhead : carrier_head C = false.
+    Hypothesis Hhead : has_heads C = false.
     Hypothesis Hfit : lens_ok o = true.
 
     Lemma p_body : forallb bodyspec p = true.
@@ -640,17 +884,69 @@ Section Call.
       rewrite (ck_view _ _ _ _ Hok). fold p. apply head_view; [apply p_ne | now apply path_from_head].
     Qed.
 
-    Lemma call_head_ok : head_ok_call o = true.
-    Proof.
-      unfold head_ok_call. destruct call_status as [-> _]. rewrite call_head_view.
-      apply andb_true_iff. split.
-      - apply bool_list_eqb_eq. unfold mview. cbn [v_is]. apply map_ext. intros t.
-        now rewrite (is_head_result sp cp), head_is_spec.
-      - apply optb_eqb_eq. unfold mview. cbn [v_code]. rewrite head_value_map.
-        unfold head_result. cbn [as_err].
-        destruct (head_map (marshal_status e)); reflexivity.
-    Qed.
   End Head.
+
+  (* carriers with HEAD requests on the path (at every level or at some), body hops that fit *)
+  Section Heads.
+    Hypothesis Hhp : forallb hpspec p = true.
+    Hypothesis Hhas : has_head C o = true.
+
+    Lemma p_has_head : existsb h_head p = true.
+    Proof.
+      unfold has_head, call_heads in Hhas. unfold p, path.
+      now rewrite <- path_heads, existsb_id_map in Hhas.
+    Qed.
+
+    Lemma body_after_head_path :
+      body_after_head C o = match after_head p with [] => false | _ => true end.
+    Proof.
+      unfold body_after_head. rewrite Hhas. cbn [andb]. unfold call_heads.
+      rewrite <- (path_heads C true). fold (path C (o_lens o)). fold p.
+      rewrite <- after_head_flags. now destruct (after_head p).
+    Qed.
+
+    Lemma call_heads_view : o_view o = mview (hops sp cp (after_head p) (head_result e)).
+    Proof.
+      rewrite (ck_view _ _ _ _ Hok). fold p.
+      now rewrite (hops_after_head sp cp) by (try exact Hhp; apply p_has_head).
+    Qed.
+
+    Lemma call_head_ok : head_ok_call C o = true.
+    Proof.
+      unfold head_ok_call. destruct call_status as [-> _].
+      rewrite call_heads_view, body_after_head_path.
+      pose proof (after_head_plain p Hhp) as Hpl.
+      destruct (after_head p) as [|b bs].
+      - cbn [hops]. apply andb_true_iff. split.
+        + apply bool_list_eqb_eq. unfold mview. cbn [v_is]. apply map_ext. intros t.
+          now rewrite (is_head_result sp cp), head_is_spec.
+        + apply optb_eqb_eq. unfold mview. cbn [v_code]. rewrite head_value_map.
+          unfold head_result. cbn [as_err].
+          destruct (head_map (marshal_status e)); reflexivity.
+      - assert (Hb : forallb bodyspec (b :: bs) = true) by now apply forallb_plain_body.
+        apply andb_true_iff. split.
+        + apply bool_list_eqb_eq. unfold mview. cbn [v_is]. apply map_ext. intros t.
+          rewrite (is_preserved_hops sp cp) by
+            (try exact Hb; try apply head_result_single; intros _; apply head_result_range_clean).
+          now rewrite (is_head_result sp cp), head_is_spec.
+        + apply optb_eqb_eq.
+          destruct (body_code_detail (b :: bs) (head_result e)) as [Hc _]; [discriminate | exact Hb |].
+          rewrite Hc, head_value_map. f_equal.
+          unfold head_result, marshal_code. cbn [as_err].
+          destruct (head_map (marshal_status e)) as [u|]; cbn [option_map as_err std_err std_werr w_code]; [|reflexivity].
+          destruct (std_code u) eqn:Eu; [now apply std_code_not_empty in Eu | reflexivity].
+    Qed.
+
+    Lemma call_mixed_msg :
+      body_after_head C o = true -> v_msg (o_view o) = Some (wmsg sp cp (head_result e)).
+    Proof.
+      rewrite body_after_head_path, call_heads_view.
+      pose proof (after_head_plain p Hhp) as Hpl.
+      destruct (after_head p) as [|b bs]; [discriminate|]. intros _.
+      apply body_msg; [discriminate | exact Hpl |].
+      rewrite (head_result_status sp cp). pose proof call_status_range. lia.
+    Qed.
+  End Heads.
 End Call.
 
 (* ---------------------------------------------------------------- the whole case *)
@@ -679,7 +975,7 @@ Proof.
 Qed.
 
 Lemma ambig416_clean C e k o :
-  call_ok C e k o -> carrier_head C = false -> lens_ok o = true ->
+  call_ok C e k o -> has_heads C = false -> lens_ok o = true ->
   negb (Bool.eqb (Z.eqb (o_wstatus o) 416 || beqb (o_wcode o) (s "RANGE_INVALID"))
                  (nth 14 (v_is (mview e)) false)) = false ->
   range_clean e = true.
@@ -697,9 +993,9 @@ Qed.
 
 Lemma corr_sound c : model_agrees c = true -> obs_ok c = true \/ known_case c = true.
 Proof.
-  destruct c as [se C f v0 calls].
-  unfold model_agrees, obs_ok, known_case, finding_of, oversize, ambig416, first_msg, field_ok_call.
-  cbn [c_err c_carrier c_field c_v0 c_calls].
+  destruct c as [se K C f v0 calls].
+  unfold model_agrees, obs_ok, known_case, finding_of, oversize, ambig416, first_msg, mixed_msg, field_ok_call.
+  cbn [c_err c_config c_carrier c_field c_v0 c_calls].
   set (e := to_gerr se). intros H.
   apply andb_true_iff in H as [H Hall]. apply andb_true_iff in H as [Hv0 Hne].
   apply view_eqb_eq in Hv0. subst v0. rewrite Hne. cbn [andb].
@@ -708,12 +1004,17 @@ Proof.
     destruct o as [o|b]; [|discriminate Hk]. exists o. split; [reflexivity|].
     exists k. now apply call_agrees_ok. }
   assert (Hsingle : single e = true) by apply single_to_gerr.
+  (* a call of a carrier with HEAD requests whose body hops fit: its path *)
+  assert (Hhp : forall o' k, call_ok C e k o' -> has_heads C = true ->
+                carrier_head C = true \/ lens_ok o' = true ->
+                forallb hpspec (path C (o_lens o')) = true).
+  { intros o' k _ Hhs Hd. now apply path_from_hp. }
   destruct f.
   - (* status *)
     left. apply forallb_forall. intros o Hin. destruct (Hcalls o Hin) as [o' [-> [k Hk]]].
     now apply (call_status_ok C e k).
   - (* errors.Is *)
-    destruct (carrier_head C) eqn:Hh; [right; reflexivity|].
+    destruct (has_heads C) eqn:Hh; [right; reflexivity|].
     destruct (existsb _ calls) eqn:Eo; [right; reflexivity|].
     assert (Hfit : forall o', In (OCall o') calls -> lens_ok o' = true).
     { intros o' Hin. apply (existsb_false_In _ _ _ Eo) in Hin. now apply negb_false_iff in Hin. }
@@ -725,7 +1026,7 @@ Proof.
     apply forallb_forall. intros o Hin. destruct (Hcalls o Hin) as [o' [-> [k Hk]]].
     apply (call_is_ok C e k o' Hk Hh); auto.
   - (* detail *)
-    destruct (carrier_head C) eqn:Hh; [right; reflexivity|].
+    destruct (has_heads C) eqn:Hh; [right; reflexivity|].
     destruct (existsb _ calls) eqn:Eo; [right; reflexivity|].
     left. apply forallb_forall. intros o Hin. destruct (Hcalls o Hin) as [o' [-> [k Hk]]].
     apply (call_detail_ok C e k o' Hk Hh).
@@ -734,19 +1035,47 @@ Proof.
     destruct calls as [|o1 rest]; [discriminate Hne|].
     destruct (Hcalls o1 (or_introl eq_refl)) as [o1' [-> [k1 Hk1]]].
     destruct (carrier_head C) eqn:Hh.
-    + left. apply forallb_forall. intros o Hin. destruct (Hcalls o Hin) as [o' [-> [k Hk]]].
+    + left. rewrite (head_not_mixed C Hh).
+      apply forallb_forall. intros o Hin. destruct (Hcalls o Hin) as [o' [-> [k Hk]]].
       unfold message_ok_call. apply optb_eqb_eq.
       now rewrite (call_head_view C e k o' Hk Hh), (call_head_view C e k1 o1' Hk1 Hh).
     + destruct (existsb _ (OCall o1' :: rest)) eqn:Eo; [right; reflexivity|].
       destruct (opwrap C) eqn:Hop; [right; reflexivity|].
       left. assert (Hfit : forall o', In (OCall o') (OCall o1' :: rest) -> lens_ok o' = true).
       { intros o' Hin. apply (existsb_false_In _ _ _ Eo) in Hin. now apply negb_false_iff in Hin. }
-      apply forallb_forall. intros o Hin. destruct (Hcalls o Hin) as [o' [-> [k Hk]]].
-      unfold message_ok_call. apply optb_eqb_eq.
-      rewrite (call_msg C e k o' Hk Hh (Hfit _ Hin) Hop).
-      now rewrite (call_msg C e k1 o1' Hk1 Hh (Hfit _ (or_introl eq_refl)) Hop).
+      destruct (carrier_mixed C) eqn:Hm.
+      * assert (Hhs : has_heads C = true) by (unfold has_heads; now rewrite Hm, orb_true_r).
+        apply forallb_forall. intros o Hin. destruct (Hcalls o Hin) as [o' [-> [k Hk]]].
+        destruct (body_after_head C o') eqn:Hb; [|reflexivity]. cbn [negb orb].
+        assert (Hmsg : forall o2 k2, call_ok C e k2 o2 -> In (OCall o2) (OCall o1' :: rest) ->
+                         body_after_head C o2 = true ->
+                         v_msg (o_view o2) = Some (wmsg sp cp (head_result e))).
+        { intros o2 k2 Hk2 Hin2 Hb2. apply (call_mixed_msg C e k2 o2 Hk2).
+          - apply (Hhp o2 k2 Hk2 Hhs). right. now apply Hfit.
+          - unfold body_after_head in Hb2. now apply andb_true_iff in Hb2 as [Hb2 _].
+          - exact Hb2. }
+        unfold mixed_msg. cbn [c_carrier c_calls].
+        destruct (find (is_body_after_head C) (OCall o1' :: rest)) as [co|] eqn:Ef.
+        -- apply find_some in Ef as [Hin2 Hq]. destruct co as [o2|]; [|discriminate Hq].
+           cbn [is_body_after_head] in Hq.
+           destruct (Hcalls _ Hin2) as [o2' [Heq [k2 Hk2]]]. injection Heq as <-.
+           unfold message_ok_call. apply optb_eqb_eq.
+           now rewrite (Hmsg o' k Hk Hin Hb), (Hmsg o2 k2 Hk2 Hin2 Hq).
+        -- apply (find_none _ _ Ef) in Hin. cbn [is_body_after_head] in Hin. congruence.
+      * assert (Hhs : has_heads C = false) by (unfold has_heads; now rewrite Hh, Hm).
+        apply forallb_forall. intros o Hin. destruct (Hcalls o Hin) as [o' [-> [k Hk]]].
+        unfold message_ok_call. apply optb_eqb_eq.
+        rewrite (call_msg C e k o' Hk Hhs (Hfit _ Hin) Hop).
+        now rewrite (call_msg C e k1 o1' Hk1 Hhs (Hfit _ (or_introl eq_refl)) Hop).
   - (* HEAD fallback *)
+    destruct (carrier_mixed C && existsb _ calls) eqn:Em; [right; reflexivity|].
     left. apply forallb_forall. intros o Hin. destruct (Hcalls o Hin) as [o' [-> [k Hk]]].
-    destruct (carrier_head C) eqn:Hh; [|reflexivity]. cbn [negb orb].
-    now apply (call_head_ok C e k).
+    destruct (has_head C o') eqn:Hhas; [|reflexivity]. cbn [negb orb].
+    destruct (has_heads C) eqn:Hhs.
+    2:{ unfold has_head, call_heads in Hhas. now rewrite (heads_from_none C Hhs) in Hhas. }
+    apply (call_head_ok C e k o' Hk); [|exact Hhas].
+    apply (Hhp o' k Hk eq_refl).
+    destruct (carrier_head C) eqn:Hh; [now left|right].
+    unfold has_heads in Hhs. rewrite Hh in Hhs. cbn [orb] in Hhs. rewrite Hhs in Em. cbn [andb] in Em.
+    apply (existsb_false_In _ _ _ Em) in Hin. now apply negb_false_iff in Hin.
 Qed.
